@@ -11,3 +11,41 @@ package compaction
 //@ guarded (*DefaultFileTracker).pendingFiles by filesMu
 //@ guarded (*DefaultCompactionCoordinator).running by compactingMu
 //@ guarded (*DefaultCompactionCoordinator).lastCompactionOutputs by resultsMu
+
+// ---- C12: what compaction may drop.  A value entry is never dropped; a deletion marker is kept whenever the target
+// level is within the retention levels - the in-memory tracker can only add a reason to keep it.
+//@ func (*BasicTombstoneFilter).ShouldKeep
+//@   requires f != nil
+//@   ensures[C12] value != nil ==> result
+//@   ensures[C12] value == nil && f.level <= f.maxTombstoneLevel ==> result
+//@ func NewBasicTombstoneFilter
+//@   ensures[C12] result != nil && fresh(result) && result.level == level && result.maxTombstoneLevel == maxTombstoneLevel && result.tracker == tracker
+
+// Sources of the merge are ordered newest first within a level: the comparison handed to the sort is "created later".
+//@ func (*DefaultCompactionExecutor).CompactFiles$1
+//@   ensures[C12] result == (files[i].Timestamp > files[j].Timestamp || (files[i].Timestamp == files[j].Timestamp && files[i].Sequence > files[j].Sequence))
+
+// The merge loop: an entry that is not a deletion marker is always written (cfAdds counts the writer calls); a deletion
+// marker is dropped only when the target level is beyond the retention levels.
+//@ ghost global cfAdds int
+//@ ghost global cfMark int
+//@ func (*DefaultCompactionExecutor).CompactFiles
+//@   requires e != nil && e.cfg != nil && task != nil
+//@   ghost after call (*HierarchicalIterator).Key#1: cfMark = cfAdds
+//@   ghost after call (*Writer).Add#1: cfAdds = cfAdds + 1
+//@   ghost after call (*Writer).AddTombstone#1: cfAdds = cfAdds + 1
+//@   check[C12] before call (*HierarchicalIterator).Next#1: !isTombstone ==> cfAdds == cfMark + 1
+//@   check[C12] before call (*HierarchicalIterator).Next#1: isTombstone && cfAdds == cfMark ==> task.TargetLevel > e.cfg.MaxLevelWithTombstones
+// KNOWN FINDING (design): beyond the retention levels a deletion marker is dropped although older versions of the key
+// may exist in deeper levels that are not inputs of this compaction - the marker may only go when the target is the
+// deepest level.  This obligation states that rule and fails on the current tree.
+//@   check[C12] before call (*HierarchicalIterator).Next#1: isTombstone && cfAdds == cfMark ==> task.TargetLevel >= e.cfg.CompactionLevels - 1
+// createNewOutputFile: on success there is a current writer satisfying the writer invariant
+//@ func (*DefaultCompactionExecutor).CompactFiles$2
+//@   ensures[C12] result == nil ==> currentWriter != nil && sstable.WriterInv(currentWriter)
+//@ loop (*DefaultCompactionExecutor).CompactFiles#1
+//@   invariant[C12] (forall s int :: 0 <= s && s < len(iterators) ==> iterators[s] != nil) && (forall s int, t int :: 0 <= s && s < t && t < len(iterators) ==> dyn(iterators[s]) != dyn(iterators[t])) && (forall s int :: 0 <= s && s < len(iterators) ==> allocated(dyn(iterators[s])))
+//@ loop (*DefaultCompactionExecutor).CompactFiles#2
+//@   invariant[C12] (forall s int :: 0 <= s && s < len(iterators) ==> iterators[s] != nil) && (forall s int, t int :: 0 <= s && s < t && t < len(iterators) ==> dyn(iterators[s]) != dyn(iterators[t])) && (forall s int :: 0 <= s && s < len(iterators) ==> allocated(dyn(iterators[s])))
+//@ loop (*DefaultCompactionExecutor).CompactFiles#3
+//@   invariant[C12] composite.SrcDistinct(mergedIter) && lockstate(mergedIter.mu) == 0 && (mergedIter.valid ==> mergedIter.key != nil) && currentWriter != nil && sstable.WriterInv(currentWriter)
